@@ -46,8 +46,8 @@ def fns(enc):
 def unit():
     dec = K.std_block_mode_mod(
         'cfb8', 'dec', 'cfb8/src/decrypt.rs', 'cfb8_dec_step', cipher_kind='enc', cipher_field='backend',
-        init_fns=K.init_plain(('C09', 'C03')), state_fns=K.state_plain(), props_rec=P_REC, backend_fns=fns(False))
+        init_fns=K.init_plain(('C09', 'C03')), state_fns=K.state_plain(), props_rec=P_REC, backend_fns=fns(False), extra_items=[Sel('impl AsyncStreamCipher for Decryptor')])
     enc = K.std_block_mode_mod(
         'cfb8', 'enc', 'cfb8/src/encrypt.rs', 'cfb8_enc_step', cipher_field='backend',
-        init_fns=K.init_plain(('C09', 'C03')), state_fns=K.state_plain(), props_rec=P_REC, backend_fns=fns(True))
-    return Unit('cfb8', prelude=K.PRELUDE_BLOCK, spec=['steps.rs'], mods=K.DEPS() + [dec, enc])
+        init_fns=K.init_plain(('C09', 'C03')), state_fns=K.state_plain(), props_rec=P_REC, backend_fns=fns(True), extra_items=[Sel('impl AsyncStreamCipher for Encryptor')])
+    return Unit('cfb8', prelude=K.PRELUDE_BLOCK, spec=['steps.rs', 'wrapper_defs.rs'], mods=K.DEPS(wrapper=True) + [dec, enc])
